@@ -68,7 +68,9 @@ fn run_ops<RS: Read + Seek>(chain: &mut SeekableChain<RS>, concat: &[u8], small:
             Op::Rte => {
                 let pos = (reference.position() as usize).min(concat.len());
                 let mut v = Vec::new();
-                match chain.read_to_end(&mut v) {
+                // bounded: a stream that never signals its end (a broken implementation) must not hang or exhaust the driver; more
+                // than the remaining bytes is already a contract violation, so the bound does not hide anything
+                match std::io::Read::take(&mut *chain, concat.len() as u64 + 64).read_to_end(&mut v) {
                     Ok(k) => {
                         let hi = (pos + k).min(concat.len());
                         let want = &concat[pos..hi];
@@ -974,7 +976,8 @@ fn run_clone_ops<W: Read + Seek + Clone>(w0: W, concat: &[u8], nc: usize, small:
             Op::Rte => {
                 let pos = (rpos[ci] as usize).min(concat.len());
                 let mut v = Vec::new();
-                match clones[ci].read_to_end(&mut v) {
+                // (bounded, see run_ops)
+                match std::io::Read::take(&mut clones[ci], concat.len() as u64 + 64).read_to_end(&mut v) {
                     Ok(k) => {
                         let hi = (pos + k).min(concat.len());
                         let want = &concat[pos..hi];
